@@ -1,6 +1,7 @@
 package props
 
 import (
+	"strconv"
 	"fmt"
 	"go/ast"
 	"go/types"
@@ -70,54 +71,46 @@ func nameEscapeSet(c *core.Ctx, o *core.Ob) core.ByteSet {
 		if b, ok := obj.Type().Underlying().(*types.Basic); !ok || b.Kind() != types.Uint8 {
 			continue
 		}
-		// the decision: some condition in the loop body mentions the byte
-		var conds []*core.V
-		body := g.ReachFrom(succ(head, core.EdgeTrue), true, core.AvoidVs(head))
-		for v := range body {
-			if condMentions(g, v, obj) {
-				conds = append(conds, v)
+		// the escaped bytes: those for which an iteration reaches the escape
+		// emission itself (Fprintf) or records the position for a later loop
+		// (an append); decisions routed through a local flag or a helper
+		// predicate are followed by the exploration
+		bodyStart := succ(head, core.EdgeTrue)
+		env := byteEnvFor(c.Prog, fn, obj)
+		var marks []*core.V
+		isMark := func(v *core.V) bool {
+			if as, ok := v.AST.(*ast.AssignStmt); ok && len(as.Rhs) == 1 {
+				if call, ok := as.Rhs[0].(*ast.CallExpr); ok && core.CalleeKey(fn.Info(), call) == "builtin.append" {
+					return true
+				}
+			}
+			if v.AST != nil {
+				for _, cs := range core.CallsIn(fn.Info(), v.AST, false) {
+					if strings.HasSuffix(cs.Key, "Fprintf") {
+						return true
+					}
+				}
+			}
+			return false
+		}
+		for v := range g.ReachFrom(bodyStart, true, core.AvoidVs(head)) {
+			if isMark(v) {
+				marks = append(marks, v)
 			}
 		}
-		if len(conds) == 0 {
+		if len(marks) == 0 {
 			continue
 		}
-		found = true
-		env := byteEnvFor(c.Prog, fn, obj)
-		// escaped = the true edge of the deciding condition is taken.  With
-		// several conditions, a byte is "raw" only if no condition selects it.
-		for _, cv := range conds {
-			o.At(fn.Site(cv.AST, "escape decision "+core.ExprStr(cv.Cond.Expr)))
-			for b := 0; b < 256; b++ {
-				val, known := env.EvalBool(cv.Cond.Expr, b)
-				if !known {
-					core.Undecided("formatName: condition %s is not a pure byte predicate", core.ExprStr(cv.Cond.Expr))
-				}
-				if val {
-					E[b] = true
-				}
-			}
-			// the true edge must lead to recording the index (an append) and
-			// not to a raw write
-			tv := succ(cv, core.EdgeTrue)
-			hasAppend := false
-			for v := range g.ReachFrom(tv, true, core.AvoidVs(head)) {
-				if as, ok := v.AST.(*ast.AssignStmt); ok && len(as.Rhs) == 1 {
-					if call, ok := as.Rhs[0].(*ast.CallExpr); ok && core.CalleeKey(fn.Info(), call) == "builtin.append" {
-						hasAppend = true
-					}
-				}
-				if es, ok := v.AST.(*ast.ExprStmt); ok {
-					if call, ok := es.X.(*ast.CallExpr); ok {
-						if k := core.CalleeKey(fn.Info(), call); strings.HasSuffix(k, "Fprintf") {
-							hasAppend = true
-						}
-					}
-				}
-			}
-			if !hasAppend {
-				o.FailAt(fn.Site(cv.AST, ""), "the escape decision does not lead to recording/escaping the byte")
-			}
+		set := env.ReachSet(g, []*core.V{bodyStart}, isMark, func(v *core.V) bool { return v == head })
+		if n := set.Len(); n == 0 || n == 256 {
+			continue // not a per-byte decision
 		}
+		found = true
+		E = set
+		for _, m := range marks {
+			o.At(fn.Site(m.AST, "escape mark"))
+		}
+		o.Count(256)
 		break
 	}
 	if !found {
@@ -162,10 +155,10 @@ func nameVerbatimSet(c *core.Ctx, o *core.Ob, shortPkg string) (V core.ByteSet, 
 		starts = append(starts, e.To)
 	}
 	isDef := func(v *core.V) bool { return v == def }
-	V = env.ReachSet(g, starts, func(v *core.V) bool { return verbatimUse(fn.Info(), v, obj) }, isDef)
+	V = env.ReachSetState(g, starts, func(v *core.V, st *core.ByteState) bool { return verbatimAt(fn.Info(), v, obj, st) }, isDef)
 	// '#' not followed by hex digits must be kept as a literal '#'
-	hs := env.ReachSet(g, starts, func(v *core.V) bool {
-		k, ok := constStore(fn.Info(), v)
+	hs := env.ReachSetState(g, starts, func(v *core.V, st *core.ByteState) bool {
+		k, ok := constAt(fn.Info(), v, st)
 		return ok && k == '#'
 	}, isDef)
 	hashLiteral = hs['#']
@@ -308,52 +301,63 @@ func stringWriterTable(c *core.Ctx, o *core.Ob) escTable {
 		}
 		bodyStart := succ(head, core.EdgeTrue)
 		body := g.ReachFrom(bodyStart, true, core.AvoidVs(head))
-		hasBackslash := false
-		for v := range body {
-			if k, ok := constStore(fn.Info(), v); ok && k == '\\' {
-				hasBackslash = true
-			}
-		}
-		if !hasBackslash {
+		if !byteConstsIn(fn.Info(), body)['\\'] {
 			continue
 		}
 		found = true
 		o.At(fn.Site(head.Cond.Range, "escaping loop"))
 		env := byteEnvFor(c.Prog, fn, obj)
 		stop := func(v *core.V) bool { return v == head }
-		res.Raw = env.ReachSet(g, []*core.V{bodyStart}, func(v *core.V) bool { return verbatimUse(fn.Info(), v, obj) }, stop)
-		res.Esc = env.ReachSet(g, []*core.V{bodyStart}, func(v *core.V) bool {
-			k, ok := constStore(fn.Info(), v)
-			return ok && k == '\\'
-		}, stop)
-		// letters
-		consts := map[int64]bool{}
-		for v := range body {
-			if k, ok := constStore(fn.Info(), v); ok {
-				consts[k] = true
+		// what one iteration emits for each byte value: "B" for the byte
+		// itself, the number for a byte with a known value, "?" otherwise
+		traces := env.Traces(g, []*core.V{bodyStart}, func(v *core.V, st *core.ByteState) string {
+			var toks []string
+			for _, x := range sinkExprs(fn.Info(), v) {
+				switch {
+				case st.IsByte(x):
+					toks = append(toks, "B")
+				default:
+					if k, ok := st.Int(x); ok {
+						toks = append(toks, strconv.FormatInt(k, 10))
+					} else {
+						toks = append(toks, "?")
+					}
+				}
 			}
-		}
-		for k := range consts {
-			if k == '\\' {
-				continue
-			}
-			k := k
-			s := env.ReachSet(g, []*core.V{bodyStart}, func(v *core.V) bool {
-				kk, ok := constStore(fn.Info(), v)
-				return ok && kk == k
-			}, stop)
-			for b := 0; b < 256; b++ {
-				if s[b] {
+			return strings.Join(toks, ",")
+		}, stop, 4)
+		for b := 0; b < 256; b++ {
+			for t := range traces[b] {
+				items := strings.Split(t, ",")
+				switch {
+				case t == "":
+					// nothing emitted on this path (state updates only)
+				case len(items) == 1 && items[0] == "B":
+					res.Raw[b] = true
+				case len(items) == 2 && items[0] == "92":
+					res.Esc[b] = true
 					if res.Letters[b] == nil {
 						res.Letters[b] = map[int]bool{}
 					}
-					res.Letters[b][int(k)] = true
+					if items[1] == "B" {
+						res.Letters[b][b] = true
+					} else if k, err := strconv.Atoi(items[1]); err == nil {
+						res.Letters[b][k] = true
+					} else {
+						o.Fail("formatString: byte %#02x is followed after the backslash by a value the analysis cannot determine", b)
+					}
+				case len(items) == 1:
+					if k, err := strconv.Atoi(items[0]); err == nil && k == b {
+						res.Raw[b] = true // a constant equal to the byte
+					} else {
+						o.Fail("formatString: byte %#02x is written as the single byte %s", b, items[0])
+					}
+				default:
+					o.Fail("formatString: byte %#02x is written as the sequence [%s], which is neither the byte itself nor backslash + one byte", b, t)
 				}
 			}
-		}
-		for b := 0; b < 256; b++ {
-			if res.Esc[b] && len(res.Letters[b]) == 0 {
-				res.Letters[b] = map[int]bool{'\\': true}
+			if len(traces[b]) == 0 {
+				o.Fail("formatString: no path through the escaping loop for byte %#02x", b)
 			}
 		}
 		break
@@ -418,10 +422,10 @@ func stringReaderTable(c *core.Ctx, o *core.Ob, shortPkg string) readTable {
 		return s
 	}
 	envO := byteEnvFor(c.Prog, fn, outer.obj)
-	rt.Ident = envO.ReachSet(g, starts(outer.v), func(v *core.V) bool { return verbatimUse(fn.Info(), v, outer.obj) }, isDef)
+	rt.Ident = envO.ReachSetState(g, starts(outer.v), func(v *core.V, st *core.ByteState) bool { return verbatimAt(fn.Info(), v, outer.obj, st) }, isDef)
 	// CR normalisation: raw CR appends constant LF
-	crlf := envO.ReachSet(g, starts(outer.v), func(v *core.V) bool {
-		k, ok := constStore(fn.Info(), v)
+	crlf := envO.ReachSetState(g, starts(outer.v), func(v *core.V, st *core.ByteState) bool {
+		k, ok := constAt(fn.Info(), v, st)
 		return ok && k == '\n'
 	}, isDef)
 	rt.CRtoLF = crlf['\r']
@@ -434,17 +438,12 @@ func stringReaderTable(c *core.Ctx, o *core.Ob, shortPkg string) readTable {
 		}
 	}
 	envE := byteEnvFor(c.Prog, fn, esc.obj)
-	rt.EscIdent = envE.ReachSet(g, starts(esc.v), func(v *core.V) bool { return verbatimUse(fn.Info(), v, esc.obj) }, isDef)
-	consts := map[int64]bool{}
-	for v := range g.ReachFrom(esc.v, false, core.AvoidVs(outer.v)) {
-		if k, ok := constStore(fn.Info(), v); ok {
-			consts[k] = true
-		}
-	}
+	rt.EscIdent = envE.ReachSetState(g, starts(esc.v), func(v *core.V, st *core.ByteState) bool { return verbatimAt(fn.Info(), v, esc.obj, st) }, isDef)
+	consts := byteConstsIn(fn.Info(), g.ReachFrom(esc.v, false, core.AvoidVs(outer.v)))
 	for k := range consts {
 		k := k
-		s := envE.ReachSet(g, starts(esc.v), func(v *core.V) bool {
-			kk, ok := constStore(fn.Info(), v)
+		s := envE.ReachSetState(g, starts(esc.v), func(v *core.V, st *core.ByteState) bool {
+			kk, ok := constAt(fn.Info(), v, st)
 			return ok && kk == k
 		}, isDef)
 		for b := 0; b < 256; b++ {
